@@ -1,0 +1,18 @@
+//go:build verif
+
+// Machine-checked contracts for package preview (comment-only; read by /verif/bin/vcgo).
+package preview
+
+// RenderPreview copies the preview bytes from the (length-limited) reader it is handed in chunks of at most 2 KiB.
+// C02: every iteration that continues has received at least one byte; C08: the copy loop handles short reads.
+//@ func (*previewReader).RenderPreview
+//@   props C01 C02 C08 C14
+//@   requires r != nil && pr != nil
+//@   modifies stream(r), pr.PreviewImage
+//@   ensures [C08 C14] r0 == nil ==> len(pr.PreviewImage) == int(h.Size)
+//@   ensures [C08] r0 == nil ==> pos(r) - old(pos(r)) <= int(h.Size)
+//@   ensures [C08] r0 == nil ==> forall i int :: 0 <= i && i < pos(r) - old(pos(r)) ==> pr.PreviewImage[i] == data(r, old(pos(r)) + i)
+//@   loop 0 invariant offset <= h.Size && len(img) == int(h.Size)
+//@   loop 0 invariant pos(r) == old(pos(r)) + int(offset)
+//@   loop 0 invariant forall i int :: 0 <= i && i < int(offset) ==> img[i] == data(r, old(pos(r)) + i)
+//@   loop 0 decreases int(h.Size) - int(offset)
